@@ -2,6 +2,7 @@ package rules
 
 import (
 	"fmt"
+	"go/constant"
 	"go/token"
 	"go/types"
 	"strings"
@@ -23,6 +24,73 @@ func c08(c *Ctx) {
 	c08r2(c, pkg)
 	c08r3(c, pkg)
 	c08r4(c, pkg)
+	c08asserts(c, pkg)
+}
+
+// R6: no unchecked single-value type assertion on a supplied value.
+func c08asserts(c *Ctx, pkg string) {
+	rule := "C08.R6"
+	exempt := map[string]string{
+		"setMatchedPrimitiveValue": "its argument is the result of convertTypeFromString for the same kind; the kind → Go type agreement is checked by the C08.R4 width tables",
+	}
+	sites := 0
+	for _, fn := range c.P.AllFuncs(pkg) {
+		has := false
+		for _, b := range fn.Blocks {
+			for _, ins := range b.Instrs {
+				if ta, ok := ins.(*ssa.TypeAssert); ok && !ta.CommaOk {
+					has = true
+				}
+			}
+		}
+		if !has || fn.Parent() != nil {
+			continue
+		}
+		name := strings.Replace(fn.String(), mod, "", -1)
+		if _, ok := exempt[fn.Name()]; ok {
+			sites++
+			c.R.Hold(rule, name, "exempt: "+exempt[fn.Name()], 1)
+			continue
+		}
+		ps := c.paths(rule, fn, px.Config{MaxPaths: 100000})
+		n := 0
+		c.forall(rule, name, "every single-value type assertion x.(T) is preceded on its path by a successful comma-ok assertion / type-switch case of x to T (a reflect.Kind test does not establish the Go type: json.Number has kind String)", fn, ps, func(p *px.Path) (bool, string) {
+			for i := range p.Events {
+				e := &p.Events[i]
+				if e.Kind != px.EvAssert {
+					continue
+				}
+				n++
+				ta := e.Instr.(*ssa.TypeAssert)
+				x := e.Val.Strip(false)
+				ok := false
+				if e.Val.Kind == px.KMkIface && e.Val.X != nil && e.Val.X.Typ != nil && types.Identical(e.Val.X.Typ, ta.AssertedType) {
+					ok = true
+				}
+				for j := 0; j < i && !ok; j++ {
+					b := &p.Events[j]
+					if b.Kind != px.EvBranch || !b.Taken {
+						continue
+					}
+					cnd := b.Cond.Strip(false)
+					if cnd.Kind != px.KExtract || cnd.Index != 1 || cnd.X == nil || cnd.X.Kind != px.KTypeAssert || !cnd.X.CommaOk {
+						continue
+					}
+					prev, isTA := cnd.X.V.(*ssa.TypeAssert)
+					if isTA && cnd.X.X.Strip(false) == x && types.Identical(prev.AssertedType, ta.AssertedType) {
+						ok = true
+					}
+				}
+				if !ok {
+					return false, fmt.Sprintf("%s.(%s) at %s is not guarded by a type check of the same value: a supplied value of another dynamic type (e.g. a JSON number, whose kind is String) panics here", e.Val.Describe(), typeString(ta.AssertedType), c.P.Pos(ta.Pos()))
+				}
+			}
+			return true, ""
+		})
+		sites += n
+	}
+	c.R.Extra["C08.R6_assert_events"] = sites
+	c.R.Min(rule, 2, "functions with single-value type assertions (setMatchedPrimitiveValue, processFieldNotFromString, …)")
 }
 
 func inlineNamed(names ...string) func(ci *px.CallInfo, d int) bool {
@@ -96,6 +164,80 @@ func c08r1(c *Ctx, pkg string) {
 		return true, ""
 	})
 	c.R.Min(rule, 1, "toOptionsWithContext")
+	c08copies(c, pkg, stype)
+}
+
+// R1b: every struct literal in the package that copies an option set field by
+// field copies all of it (sibling sites of toOptionsWithContext).
+func c08copies(c *Ctx, pkg string, stype *types.Struct) {
+	rule := "C08.R1b"
+	want := map[string]bool{}
+	for i := 0; i < stype.NumFields(); i++ {
+		want[stype.Field(i).Name()] = true
+	}
+	isOptsStruct := func(t types.Type) bool {
+		n := namedStructOf(t)
+		return n == "fieldOptionsWithContext" || n == "fieldOptions"
+	}
+	sites := 0
+	for _, fn := range c.P.AllFuncs(pkg) {
+		// alloc → field name → stored value
+		type rec struct {
+			stored map[string]ssa.Value
+			pos    ssa.Instruction
+		}
+		allocs := map[*ssa.Alloc]*rec{}
+		for _, b := range fn.Blocks {
+			for _, ins := range b.Instrs {
+				st, ok := ins.(*ssa.Store)
+				if !ok {
+					continue
+				}
+				fa, ok := st.Addr.(*ssa.FieldAddr)
+				if !ok {
+					continue
+				}
+				base := fa.X
+				if inner, ok := base.(*ssa.FieldAddr); ok && fieldNameOf(inner) == "fieldOptionsWithContext" {
+					base = inner.X
+				}
+				al, ok := base.(*ssa.Alloc)
+				if !ok || !isOptsStruct(al.Type()) || !want[fieldNameOf(fa)] {
+					continue
+				}
+				if allocs[al] == nil {
+					allocs[al] = &rec{stored: map[string]ssa.Value{}, pos: st}
+				}
+				allocs[al].stored[fieldNameOf(fa)] = st.Val
+			}
+		}
+		for al, r := range allocs {
+			copied := 0
+			for name, v := range r.stored {
+				if u, ok := v.(*ssa.UnOp); ok {
+					if src, ok := u.X.(*ssa.FieldAddr); ok && fieldNameOf(src) == name {
+						copied++
+					}
+				}
+			}
+			if copied < 2 {
+				continue // not a copy of another option set
+			}
+			sites++
+			var missing []string
+			for name := range want {
+				if _, ok := r.stored[name]; !ok {
+					missing = append(missing, name)
+				}
+			}
+			sortStrings(missing)
+			cons := fmt.Sprintf("%s#literal(%s)", fn.String(), namedStructOf(al.Type()))
+			cons = strings.Replace(cons, mod, "", -1)
+			c.R.Check(len(missing) == 0, rule, cons, "a struct literal that copies an option set field by field copies every declared option (nothing declared in the tag is silently dropped on this code path)", c.P.Pos(al.Pos()),
+				fmt.Sprintf("fields %v are not copied: constraints declared in the tag are lost when this copy is used", missing), nil, 1)
+		}
+	}
+	c.R.Min(rule, 2, "the rebuilt literals in toOptionsWithContext and parseOptionsWithContext")
 }
 
 var c08Chain = []string{"processFieldNotFromString", "processFieldPrimitive", "processFieldPrimitiveWithJSONNumber",
@@ -602,7 +744,8 @@ func c08r4(c *Ctx, pkg string) {
 			return "?"
 		})
 	}
-	c.R.Min(rule, 4, "validateNumberRange, isLeftInclude, isRightInclude, toOptionsWithContext")
+	c08widths(c, pkg, rule)
+	c.R.Min(rule, 6, "validateNumberRange, isLeftInclude, isRightInclude, toOptionsWithContext, convertTypeFromString, setMatchedPrimitiveValue")
 }
 
 // optFlagProbe finds a load of o.fieldOptionsWithContext.Optional on the path
@@ -642,9 +785,91 @@ func byteEqAtom(prm *ssa.Parameter, ch byte) atomFn {
 	}
 }
 
+func constantInt(v int64) constant.Value { return constant.MakeInt64(v) }
+
 func constInt64(cv *ssa.Const) (int64, bool) {
 	if cv == nil || cv.Value == nil {
 		return 0, false
 	}
 	return cv.Int64(), true
+}
+
+// kind tables: the parser width and the reflect setter must match the target kind
+// (a wider parse is silently truncated by SetInt/SetUint after validation).
+func c08widths(c *Ctx, pkg, rule string) {
+	intBits := int64(64)
+	if pk := c.P.Pkg(pkg); pk != nil && pk.TypesSizes != nil {
+		intBits = pk.TypesSizes.Sizeof(types.Typ[types.Int]) * 8
+	}
+	type row struct {
+		kind   string
+		val    int64
+		parser string
+		bits   int64
+		setter string
+	}
+	// reflect.Kind values are part of reflect's API (iota order)
+	rows := []row{
+		{"Int", 2, "strconv.ParseInt", intBits, "SetInt"}, {"Int8", 3, "strconv.ParseInt", 8, "SetInt"}, {"Int16", 4, "strconv.ParseInt", 16, "SetInt"},
+		{"Int32", 5, "strconv.ParseInt", 32, "SetInt"}, {"Int64", 6, "strconv.ParseInt", 64, "SetInt"},
+		{"Uint", 7, "strconv.ParseUint", intBits, "SetUint"}, {"Uint8", 8, "strconv.ParseUint", 8, "SetUint"}, {"Uint16", 9, "strconv.ParseUint", 16, "SetUint"},
+		{"Uint32", 10, "strconv.ParseUint", 32, "SetUint"}, {"Uint64", 11, "strconv.ParseUint", 64, "SetUint"},
+		{"Float32", 13, "strconv.ParseFloat", 32, "SetFloat"}, {"Float64", 14, "strconv.ParseFloat", 64, "SetFloat"},
+	}
+	if f := c.fn(rule, pkg, "convertTypeFromString"); f != nil {
+		var bad []string
+		n := 0
+		for _, r := range rows {
+			ps := c.paths(rule, f, px.Config{ParamAbs: map[string]px.Abs{"kind": {K: px.ConstV, C: constantInt(r.val)}}})
+			for _, p := range ps {
+				if p.Exit != px.ExitReturn {
+					continue
+				}
+				n++
+				calls := p.All(calleeIs("strconv.ParseInt", "strconv.ParseUint", "strconv.ParseFloat"))
+				if len(calls) != 1 || shortName(calls[0].Call) != r.parser {
+					bad = append(bad, fmt.Sprintf("kind %s: parsed by %d calls (want %s)", r.kind, len(calls), r.parser))
+					continue
+				}
+				a := calls[0].Call.Args
+				bits, ok := constInt(p, a[len(a)-1])
+				if !ok || bits != r.bits {
+					bad = append(bad, fmt.Sprintf("kind %s: parsed with bit size %d, want %d (a wider value passes validation and is truncated when stored)", r.kind, bits, r.bits))
+				}
+				if !isParam(a[0], f.Params[1]) {
+					bad = append(bad, fmt.Sprintf("kind %s: parses something other than the supplied string", r.kind))
+				}
+			}
+		}
+		o := c.R.Check(len(bad) == 0 && n >= len(rows), rule, pkg+".convertTypeFromString", "for every numeric kind the string is parsed by the parser of that kind's signedness with exactly that kind's bit size", posOf(c, f), strings.Join(bad, "; "), bad, len(rows))
+		_ = o
+	}
+	if f := c.fn(rule, pkg, "setMatchedPrimitiveValue"); f != nil {
+		var bad []string
+		n := 0
+		all := append([]row{{"Bool", 1, "", 0, "SetBool"}, {"String", 24, "", 0, "SetString"}}, rows...)
+		for _, r := range all {
+			ps := c.paths(rule, f, px.Config{ParamAbs: map[string]px.Abs{"kind": {K: px.ConstV, C: constantInt(r.val)}}})
+			for _, p := range ps {
+				if p.Exit != px.ExitReturn {
+					continue
+				}
+				n++
+				sets := p.All(func(e *px.Event) bool {
+					return e.Kind == px.EvCall && e.Call.Obj() != nil && strings.HasPrefix(e.Call.Obj().Name(), "Set") && strings.HasPrefix(shortName(e.Call), "reflect.(Value).")
+				})
+				if len(sets) != 1 || sets[0].Call.Obj().Name() != r.setter {
+					bad = append(bad, fmt.Sprintf("kind %s: stored by %d setters (want %s)", r.kind, len(sets), r.setter))
+					continue
+				}
+				if !dependsOn(p, sets[0].Call.Args[len(sets[0].Call.Args)-1], p.ParamSym(f.Params[2])) {
+					bad = append(bad, fmt.Sprintf("kind %s: the stored value is not the supplied one", r.kind))
+				}
+				if !px.IsNilConst(p.Results[0]) {
+					bad = append(bad, fmt.Sprintf("kind %s: reports an error after storing", r.kind))
+				}
+			}
+		}
+		c.R.Check(len(bad) == 0 && n >= len(all), rule, pkg+".setMatchedPrimitiveValue", "every primitive kind is stored through the reflect setter of its own class with the supplied value", posOf(c, f), strings.Join(bad, "; "), bad, len(all))
+	}
 }
